@@ -252,12 +252,25 @@ def c27(pid, spec, tier, seed):
     return res
 
 
+def gen_shared_names(rng):
+    """A grammar in which one identifier names BOTH a scanner state and a non-terminal (separate name spaces)."""
+    nm = rng.choice(['Str', 'Inner', 'Body', 'X'])
+    kind = rng.choice(['enter', 'push'])
+    back = 'enter INITIAL' if kind == 'enter' else 'pop'
+    s = '%%start S\n%%on Q %%%s %s\n%%scanner %s {\n    %%on Q %%%s\n}\n%%%%\n' % (kind, nm, nm, back)
+    s += 'S: %s Q <%s>"in" Q%s;\n' % (nm, nm, rng.choice(['', ' ' + nm, ' [ %s ]' % nm]))
+    s += '%s: "x"%s;\n' % (nm, rng.choice(['', ' | "y"', ' { "z" }']))
+    s += 'Q: <INITIAL, %s>"q";\n' % nm
+    return s
+
+
 def c28(pid, spec, tier, seed):
     """Rename: consistent renaming of non-terminals / scanner states."""
     ensure_ls()
     res = new_result()
     wdir = os.path.join(cl.WORK, pid)
     texts, rng = texts_for(seed, tier, 100, 2500, comments=True)
+    texts += [('shared-%d' % i, gen_shared_names(rng)) for i in range(300 if tier == 'thorough' else 25)]
     oracle = par_oracle([t for _, t in texts], wdir, 'in')
     valid = [(n, t, o) for (n, t), o in zip(texts, oracle) if o['ok'] and not o['cfg'].startswith('CONFIG-ERROR')]
     srv = lsp.Server()
@@ -332,6 +345,19 @@ def c28(pid, spec, tier, seed):
         # name-sorted collections inside the dump may be ordered differently after the renaming: compare as bags too
         want2 = o['cfg'].replace('"%s"' % nm, '"%s"' % new)   # names that merely start with the old name are the user's own
         n_left0 = sum(1 for t in after if t == (IDENT, nm))
+        # non-terminals and scanner states live in separate name spaces: when the name denotes one of each, renaming
+        # one of them must leave the other alone
+        if ('scanner_name: "%s"' % nm) in o['cfg'] and ('N("%s"' % nm) in o['cfg']:
+            if ('scanner_name: "%s"' % new) in oo['cfg'] and ('N("%s"' % new) in oo['cfg']:
+                fail(res, 'rename-touches-other-symbol', 'the name denotes a scanner state and a non-terminal; renaming one of them also renamed the other', case)
+                continue
+            if n_left0 == 0:
+                fail(res, 'rename-touches-other-symbol', 'the name denotes a scanner state and a non-terminal, but every occurrence of the identifier was replaced', case)
+                continue
+            res['ok'] += 1
+            res['nontrivial'].add(hashlib.md5(case.encode()).digest())
+            res['dist']['shared-name'] = res['dist'].get('shared-name', 0) + 1
+            continue
         # every identifier token with the old name was replaced by the fresh name and nothing else changed: the token
         # sequence is the original one with the name substituted, hence (the grammar being a function of the token
         # sequence) the grammar is the consistently renamed one
